@@ -152,6 +152,7 @@ class Sched(object):
         self.split = split                    # execute-at-server and deliver-response are separate events
         self.timer_choice = timer_choice
         self.fifo = True
+        self.refuse_round = set()             # clients whose writes are refused until their next survey
         self.extras = []                      # [(label, callable)] harness-side pending actions (e.g. consumer resume)
         self.log = []
         self.issued = 0
@@ -185,7 +186,11 @@ class Sched(object):
         if isinstance(res, defer.Deferred):
             # remote methods returning Deferreds (helper): resolve through the reactor
             box = []
-            res.addBoth(box.append)
+
+            def _keep(r):
+                box.append(r)
+                return r            # pass the result on: a later addBoth on this Deferred must still see it
+            res.addBoth(_keep)
             if not box:
                 R.pump_until_idle()
             if not box:
@@ -226,6 +231,12 @@ class Sched(object):
             ob(kind, ev, outcome)
 
     def do_deliver(self, ev):
+        if ev.conn.ci in self.refuse_round:
+            if ev.meth == "slot_readv":
+                self.refuse_round.discard(ev.conn.ci)
+            elif ev.meth == "slot_testv_and_readv_and_writev" and not ev.executed:
+                self.do_fault(ev, "refuse")
+                return
         if self.split and not ev.executed:
             ev.executed = True
             ev.result = self._execute(ev)
@@ -250,6 +261,19 @@ class Sched(object):
             self._fire(ev, out)
         elif kind == "disconnect":
             self.disconnect(ev.conn, note_ev=ev)
+        elif kind in ("refuse", "refuse-round"):
+            # the server answers a test-and-set write as if another writer had got there first:
+            # nothing is written, the answer is (False, current data).  "refuse-round": every write
+            # of this client is refused until its next survey (slot_readv) - a whole lost round
+            if kind == "refuse-round":
+                self.refuse_round.add(ev.conn.ci)
+            self.pending.remove(ev)
+            a = list(ev.args)
+            a[2] = {sh: ([(0, 1, b"eq", b"\x00\x00")], dv, nl) for sh, (tv, dv, nl) in a[2].items()}
+            ev.args = tuple(a)
+            out = self._execute(ev)
+            self._note("fault:" + kind, ev, out)
+            self._fire(ev, out)
         elif kind == "lie":
             # the server answers this read with altered bytes (first byte of the answer flipped)
             self.pending.remove(ev)
@@ -297,12 +321,21 @@ class Sched(object):
                 for k in self.fault_kinds:
                     if k == "lie" and e.meth not in ("read", "slot_readv"):
                         continue
+                    if k in ("refuse", "refuse-round") and e.meth != "slot_testv_and_readv_and_writev":
+                        continue
                     m.append(("fault:" + k, e.label(), e))
-        for (label, fn) in self.extras:
+        # harness actions: "resume:*" must eventually happen (taken by default when nothing else is
+        # enabled); "stop:*" and other optional actions are only ever taken as a deviation
+        must = [(l, f) for (l, f) in self.extras if l.startswith("resume:")]
+        opt = [(l, f) for (l, f) in self.extras if not l.startswith("resume:")]
+        for (label, fn) in must:
             m.append(("extra", label, fn))
         nd = R.next_timer_delay()
-        if nd is not None and ((not evs and not self.extras) or (self.explore and self.timer_choice)):
+        if nd is not None and ((not evs and not must) or (self.explore and self.timer_choice)):
             m.append(("timer", "+%.3fs" % nd, None))
+        if m and self.explore:
+            for (label, fn) in opt:
+                m.append(("extra", label, fn))
         return m
 
     def step(self):
